@@ -18,6 +18,8 @@ RULE = ("cases = listed conservation-form classes x flags x D x N odd/even x ord
         "N parity, order, state/equilibrium); non-trivial = non-zero mean / non-zero nonlinear term / non-zero equilibrium")
 REQUIRED = {"mean_conserved": {"quick": 200, "thorough": 1000}, "mean_identity": {"quick": 4, "thorough": 20}, "no_work": {"quick": 40, "thorough": 200}, "fixed_point": {"quick": 80, "thorough": 400}}
 ASSUMPTIONS = ["3D velocity mean conservation is asserted on divergence-free states only (mean N(u) = mean(u div u) otherwise)", "fixed points: |growth*dt| <= 5", "float64"]
+AMBIENT = True            # thorough tier: the repository's own test-suite runs under this property's general monitor (rv/ambient.py)
+REQUIRED_AMBIENT = {'ambient_mean_conserved': 60}
 TIMEOUT = {"quick": 900, "thorough": 3000}
 EPS = np.finfo(float).eps
 
